@@ -1160,7 +1160,7 @@ ConnectionMap createConnectionMap(const VariablePtr &variable1, const VariablePt
             auto v = component1->variable(i);
             for (const auto &vEquiv : equivalentVariables(v)) {
                 if (owningComponent(vEquiv) == component2) {
-                    map.insert(std::make_pair(v, vEquiv));
+                    map.emplace_back(v, vEquiv);
                 }
             }
         }
